@@ -345,3 +345,70 @@ Lemma param_index_ok :
   map (fun it => fst (fst it)) gen_rel_param
     = [(0,0);(0,1);(0,2);(1,0);(1,1);(1,2);(2,0);(2,1);(2,2)]%nat.
 Proof. split; reflexivity. Qed.
+
+(* ---------- argument forwarding of RelativisticKMatrix.formulate (marker arguments) ---------- *)
+Definition edw_marker : string := "EnergyDependentWidth[phsp_factor=None.rhoX,name=None]".
+Definition edw_default : string :=
+  "EnergyDependentWidth[phsp_factor=ampform.dynamics.phasespace.PhaseSpaceFactor,name=None]".
+Definition arg_is (args : list expr) (k : nat) (name : string) : bool :=
+  match nth_error args k with Some (Sym s) => String.eqb s name | _ => false end.
+(* whitelist: Sum, rhoX(s, ., .), EnergyDependentWidth carrying rhoX with (Lx, dx); nothing else *)
+Definition chk_marker (h : head) (args : list expr) : bool :=
+  match h with
+  | HOther g =>
+      if String.eqb g "Sum" then true
+      else if String.eqb g "rhoX" then Nat.eqb (length args) 3 && arg_is args 0 "s"
+      else if String.eqb g edw_marker
+           then Nat.eqb (length args) 7 && arg_is args 0 "s" && arg_is args 5 "Lx" && arg_is args 6 "dx"
+      else false
+  | _ => true
+  end.
+Definition is_head (f : string) (h : head) (_ : list expr) : bool :=
+  match h with HOther g => String.eqb g f | _ => false end.
+Definition total (p : head -> list expr -> bool) (l : list expr) : nat :=
+  fold_right Nat.add 0%nat (map (count_nodes p) l).
+Definition marked_ok (it : string * list expr) : bool :=
+  let trees := snd it in
+  forallb (all_nodes chk_marker) trees
+  && Nat.ltb 0 (total (is_head edw_marker) trees) && Nat.ltb 0 (total (is_head "rhoX") trees)
+  && negb (existsb (occursb "PhaseSpaceFactor") trees) && negb (existsb (occursb edw_default) trees).
+
+Lemma formulate_only_callers_arguments :
+  forallb marked_ok gen_marked_rel = true /\
+  map fst gen_marked_rel
+  = ["return_t_hat=False/n=1"; "return_t_hat=False/n=2"; "return_t_hat=True/n=1"; "return_t_hat=True/n=2"].
+Proof. split; vm_compute; reflexivity. Qed.
+
+(* ---------- the width below threshold: what width_real_nonneg excludes ---------- *)
+(* gen_edw is EnergyDependentWidth(s, m0, g0, ma, mb, L, d, phsp_factor=rhoX).evaluate():
+   Gamma(s) = g0 rho(s) F(s)^2 / (rho(m0^2) F(m0^2)^2).  If the phase-space factor is real at s but
+   purely imaginary at the pole mass (a pole below the channel's threshold, for PhaseSpaceFactor and
+   PhaseSpaceFactorComplex), the width is a non-zero purely imaginary number: not real. *)
+Definition env_edw (f : string -> list C -> C) (s m0 g0 ma mb L d : R) : envC :=
+  envC_of [("s", RtoC s); ("m0", RtoC m0); ("g0", RtoC g0); ("ma", RtoC ma); ("mb", RtoC mb);
+           ("L", RtoC L); ("d", RtoC d)] f.
+
+Lemma width_imaginary_below_threshold f s m0 g0 ma mb L d a b p q :
+  g0 <> 0%R -> a <> 0%R -> b <> 0%R -> p <> 0%R -> q <> 0%R ->
+  f "rhoX" [RtoC s; RtoC ma; RtoC mb] = RtoC a ->
+  f "rhoX" [RtoC m0 * RtoC m0; RtoC ma; RtoC mb] = Ci * RtoC b ->
+  f "FormFactor" [RtoC s; RtoC ma; RtoC mb; RtoC L; RtoC d] = RtoC p ->
+  f "FormFactor" [RtoC m0 * RtoC m0; RtoC ma; RtoC mb; RtoC L; RtoC d] = RtoC q ->
+  wdC (env_edw f s m0 g0 ma mb L d) gen_edw /\
+  exists y : R, y <> 0%R /\ denC (env_edw f s m0 g0 ma mb L d) gen_edw = Ci * RtoC y.
+Proof.
+  intros Hg Ha Hb Hp Hq Ea Eb Ep Eq.
+  assert (HCi : Ci <> 0) by (apply C_neq0_im; cbn; lra).
+  assert (Hb' : RtoC b <> 0) by (apply RtoC_neq0; exact Hb).
+  assert (Hq' : RtoC q <> 0) by (apply RtoC_neq0; exact Hq).
+  unfold gen_edw, env_edw. denC_simpl. rewrite Ea, Eb, Ep, Eq. split.
+  - repeat split; try exact I; try assumption; try (apply Cmult_neq_0; assumption).
+  - exists (- (g0 * (p * p) * a) / (q * q * b))%R. split.
+    + unfold Rdiv. apply Rmult_integral_contrapositive_currified.
+      * apply Ropp_neq_0_compat. repeat apply Rmult_integral_contrapositive_currified; assumption.
+      * apply Rinv_neq_0_compat. repeat apply Rmult_integral_contrapositive_currified; assumption.
+    + rewrite <- Cdiv_R, RtoC_opp, !RtoC_mult. field [Ci2o]. repeat split; assumption.
+Qed.
+
+Lemma imaginary_not_real y : y <> 0%R -> ~ isreal (Ci * RtoC y).
+Proof. intros Hy H. rewrite re_Ci_mult in H. unfold isreal in H. cbn in H. contradiction. Qed.
